@@ -10,11 +10,11 @@ EXPLANATION = ('The TZif reader is analysed for every byte string at once: TimeZ
                'Offset::resolve, and every Cursor / Header / DataBlock function on its own. Every reachable MIR assertion (overflow, bounds), lossy '
                'cast, unwrap/expect, explicit panic and precondition of a std call (split_at, slice index, try_into of a slice, chunks_exact) is '
                'discharged; (F7) every loop of local::* is driven by an Iterator::next whose exhaustion leaves the loop and the call graph of local::* '
-               'has no cycle, so the reader terminates. Five obligations are hand-discharged with a written argument (loop counters of the two cursor '
-               'scans; UTF-8 validity of ASCII-delimited sub-slices). That a damaged /etc/localtime yields offset 0 is read off Offset::resolve.')
+               'has no cycle, so the reader terminates. One obligation is hand-discharged with a written argument (UTF-8 validity of the ASCII-delimited sub-slices handed to parse_int); the loop '
+               'counters of the two cursor scans are discharged by the join cache (counter == iterator position). That a damaged /etc/localtime yields offset 0 is read off Offset::resolve.')
 META = {
     'technique': 'static analysis: MIR abstract interpretation of the byte-level parser (slice lengths, cursor contracts, rule-field ranges), loop/recursion structure on the CFG and call graph',
-    'note': 'trusted: rustc MIR, vf/models.py; hand-discharged: tables/hand_discharged.json (5 entries for local::); assumption A-CLOCK',
+    'note': 'trusted: rustc MIR, vf/models.py; hand-discharged: tables/hand_discharged.json (1 entry: parse_int); assumption A-CLOCK',
 }
 
 FROM_TZIF = 'local::timezone::TimeZone::from_tzif'
